@@ -22,31 +22,31 @@ CHECKS = {
                      "across 30/31 and multi-octet forms, definite/indefinite, nesting) and reference DER of generated types; output must "
                      "re-encode to the identical bytes and every O/T/TL/V/L attribute must equal the independent parse; mutated, random and "
                      "nesting-bomb inputs check the safety clause (exit status, diagnostic, no sanitizer report, no hang).",
-                note="Trusts vf/asn/der.py:parse_tlv; inputs are sampled; bombs to depth 10^4 (quick) / 10^5 (thorough). unber's default (value-printing) mode runs on the whole corpus and on hostile inputs (sanitizer/signal only)."),
+                note="Trusts vf/asn/der.py:parse_tlv; inputs are sampled; bombs to depth 10^4 (quick) / 10^5 (thorough). unber's default (value-printing) mode runs on the whole corpus and on hostile inputs (sanitizer/signal only). The BER sample PDUs shipped under examples/ are part of the corpus."),
     "C01": dict(level="exploration", engine="vdriver", ref="DESIGN.md 4/C01",
                 technique="sanitizer-watched round-trip/transcoding workload over generated modules; self-consistency monitor over the driver event log with an independent DER anchor",
                 text="Generated modules over the type algebra of the statement are compiled with the asn1c of the current tree and linked (ASan+UBSan+ledger) "
                      "with the generic driver; boundary-biased values enter through the reference DER and are pushed through every ordered pair of the five "
                      "syntaxes; each step is judged for rc, consumed==produced, compare_struct and DER equality.",
-                note="Values enter by ber_decode of the reference DER (entry failures counted inconclusive); constructs with a listed known finding are run only as targeted cases; values sampled."),
+                note="Values enter by ber_decode of the reference DER (entry failures counted inconclusive); constructs with a listed known finding are run only as targeted cases; values sampled. The shipped X.509 / LDAP (thorough: UMTS RRC) example specifications with their shipped sample PDUs, produced by other implementations, run through the same judgement (vf/realpdu.py)."),
     "C04": dict(level="exploration", engine="vdriver", ref="DESIGN.md 4/C04",
                 technique="ASan+UBSan+allocation-ledger watched decoding of structure-aware mutants; return-value and post-decode lifecycle monitor",
                 text="Valid encodings in BER/OER/UPER/XER of generated (incl. recursive) types are truncated at every offset, bit-flipped, length-edited, spliced "
                      "and randomised; every mutant is decoded, then the structure printed, validated, re-encoded in five syntaxes and freed under sanitizers, a "
                      "watchdog and the ledger (leaks, encoder-held allocations).",
-                note="Sanitizers only see executed paths; nonnull-attribute UBSan check disabled (zero-length libc calls); mutants sampled, no coverage guidance in quick."),
+                note="Sanitizers only see executed paths; nonnull-attribute UBSan check disabled (zero-length libc calls); mutants sampled, no coverage guidance in quick. The shipped X.509 / LDAP (thorough: UMTS RRC) example specifications with their shipped sample PDUs, produced by other implementations, run through the same judgement (vf/realpdu.py)."),
     "C05": dict(level="exploration", engine="vdriver", ref="DESIGN.md 4/C05",
                 technique="history monitor: chunked vs one-shot decoding of the same bytes, exhaustive over 2-chunk split points of each explored encoding",
                 text="Reference DER, reference BER variants (indefinite, constructed strings, long lengths) and the library's own OER/XER output are decoded one-shot "
                      "and with the manual's restart protocol at every split point and on sampled k-chunk schedules (1-byte feeding, zero-byte presentations); final rc, "
                      "total consumed, DER of the result and RC_WMORE on prefixes are compared; resumption states seen are counted.",
-                note="UPER excluded (documented non-restartable); exhaustive only over 2-splits of encodings up to the length cap; known restart defects (BER indefinite/constructed strings, OER) are listed findings."),
+                note="UPER excluded (documented non-restartable); exhaustive only over 2-splits of encodings up to the length cap; known restart defects (BER indefinite/constructed strings, OER) are listed findings. The shipped X.509 / LDAP (thorough: UMTS RRC) example specifications with their shipped sample PDUs, produced by other implementations, run through the same judgement (vf/realpdu.py)."),
     "C14": dict(level="fault_enumeration", engine="vdriver", ref="DESIGN.md 4/C14",
                 technique="allocation-failure enumeration through a link-time allocator ledger + lifecycle history monitor under ASan",
                 text="For each PDU/value/syntax: histories over decode-prefix, decode-garbage, RESET, re-decode, encode, failing callback, FREE_CONTENTS_ONLY, FREE; and for "
                      "every decoder and encoder call the failure of the k-th allocation for each k reached (capped); the ledger decides leaks / encoder-held allocations, "
                      "RESET must leave zero bytes and a later decode must equal a decode into a fresh structure.",
-                note="Single allocation fault per call; k capped (24 quick / 120 thorough); the output callback fails once at every call index (first 16); one module with long strings so that staging buffers flush inside open-type bodies; allocator interposed by --wrap on the libc names."),
+                note="Single allocation fault per call; k capped (24 quick / 120 thorough); the output callback fails once at every call index (first 16); one module with long strings so that staging buffers flush inside open-type bodies; allocator interposed by --wrap on the libc names. The shipped X.509 / LDAP (thorough: UMTS RRC) example specifications with their shipped sample PDUs, produced by other implementations, run through the same judgement (vf/realpdu.py)."),
     "C15": dict(level="exploration", engine="vdriver", ref="DESIGN.md 4/C15",
                 technique="adversarial-input workload in a small-stack thread with process-signal, allocation-ledger and watchdog monitors",
                 text="Recursive/collection types are decoded from model-built nesting bombs (depth 10..10^5, 10^6 thorough; BER definite/indefinite/constructed strings, XER, UPER, OER), "
@@ -71,20 +71,20 @@ CHECKS = {
                 text="Tag-structure modules under EXPLICIT/IMPLICIT/AUTOMATIC tagging with manual tags, reference chains and nested untagged CHOICEs are generated "
                      "unambiguous by construction; every single-edit mutant (retag, untag, type swap, make-OPTIONAL, duplicate identifier, duplicate enumeration "
                      "name/value, dangling reference) is judged by the model and by asn1c; acceptance must coincide, rejections must carry a diagnostic and write no file.",
-                note="Trusts vf/checks/c11faults.py:problems and vf/asn/model.py tag algebra; COMPONENTS OF, parameterised types not generated; enumerations with negative values and ascending additions; systematic catalogue of carrier pairs; mutants sampled (40/400 per base)."),
+                note="Trusts vf/checks/c11faults.py:problems and vf/asn/model.py tag algebra; COMPONENTS OF, parameterised types not generated; enumerations with negative values and ascending additions; systematic catalogue of carrier pairs; mutants sampled (40/400 per base). The project's own verdicts are checked too: shipped files marked -SE must be rejected with a diagnostic and no output, files marked -OK must pass asn1c -E -F."),
     "C10": dict(level="exploration", engine="compiler-monitor", ref="DESIGN.md 4/C10",
                 technique="process-level monitor of the ASan-built asn1c (exit status, signals, sanitizer reports, diagnostics) plus build-and-walk monitor of the delivered file set",
                 text="Generated valid modules and single-fault mutants (tag collisions, duplicate identifiers/enumeration items, dangling references, inverted ranges, mistyped "
                      "DEFAULTs) are compiled under each documented option alone and random option subsets; on exit 0 exactly the delivered files are compiled as C99, "
                      "linked with the generic driver, the headers parsed as C++, and a descriptor-consistency walk (offsets, tag maps, optional-member tables, PER ranges, "
                      "enumeration maps) run over every PDU; on rejection a diagnostic is required.",
-                note="Plus a fixed constructs module under every option, hand-written faulty modules and nine information-object-class shapes under three option sets. Warnings ignored; UBSan reports of the compiler recorded only, except null-pointer reports, which are confirmed on an uninstrumented -O0 build (death by signal = verdict); option subsets sampled; descriptor walk checks structural invariants, not semantics; inconclusive when most valid modules are rejected."),
+                note="Plus a fixed constructs module under every option, hand-written faulty modules and nine information-object-class shapes under three option sets. Warnings ignored; UBSan reports of the compiler recorded only, except null-pointer reports, which are confirmed on an uninstrumented -O0 build (death by signal = verdict); option subsets sampled; descriptor walk checks structural invariants, not semantics; inconclusive when most valid modules are rejected. The shipped corpus (tests-asn1c-compiler/*-OK.asn1, examples/*.asn1; quick: 30 files, thorough: all under three option sets) goes through the same compile/link/walk pipeline."),
     "C02": dict(level="exploration", engine="vdriver", ref="DESIGN.md 4/C02",
                 technique="differential monitor: asn_encode output compared byte for byte with independent reference encoders (DER, canonical UPER, canonical OER) over generated modules, ASan-watched",
                 text="Generated modules plus a fixed module of boundary shapes (16K-multiple lengths in strings and open types, long OPTIONAL runs, tag numbers at the "
                      "short/long form limits) are compiled against the current tree; each value enters through the reference DER and its DER / UPER / OER encodings "
                      "are compared with vf/asn/der.py, uper.py, oer.py written from X.690/X.691/X.696.",
-                note="Trusts the reference encoders (cross-checked against the vectors and hand-triaged disagreements recorded in DESIGN.md); subset excludes time types under UPER, SET under UPER/OER, untagged CHOICE alternatives under OER; constructs with listed findings run as targeted minority."),
+                note="Trusts the reference encoders (cross-checked against the vectors and hand-triaged disagreements recorded in DESIGN.md); subset excludes time types under UPER, SET under UPER/OER, untagged CHOICE alternatives under OER; constructs with listed findings run as targeted minority. The shipped sample PDUs (X.509 certificate DER, LDAP BER, thorough: UMTS RRC UPER) are a second, foreign reference: decode + encode must return them octet for octet."),
     "C03": dict(level="exploration", engine="vdriver", ref="DESIGN.md 4/C03",
                 technique="differential monitor: decoders fed with model-generated alternative valid encodings; result compared with the reference DER of the value",
                 text="For each generated value the reference model emits its DER encoding and members of the BER variant families (long-form lengths, indefinite lengths, "
@@ -92,7 +92,7 @@ CHECKS = {
                      "UPER/OER encodings (also as sent by a 'version 2' peer: unknown extension additions in several presence patterns); XER: value-preserving "
                      "rewritings of the library's own BASIC/CANONICAL-XER documents (white-space and comments between elements, empty-element tags, white-space inside "
                      "tags, prolog); every one must decode RC_OK, consume everything and re-encode to the reference DER. Fixed shapes modules (SH, SH2) are included.",
-                note="Only encodings the standards make valid are generated; there is no independent XER encoder (rewritings of the library's own, well-formed documents only); variants sampled (3/12 per family and value)."),
+                note="Only encodings the standards make valid are generated; there is no independent XER encoder (rewritings of the library's own, well-formed documents only); variants sampled (3/12 per family and value). The shipped X.509 / LDAP (thorough: UMTS RRC) example specifications with their shipped sample PDUs, produced by other implementations, run through the same judgement (vf/realpdu.py)."),
     "C06": dict(level="exploration", engine="vdriver", ref="DESIGN.md 4/C06",
                 technique="metamorphic monitor: canonical encoder outputs of equivalent in-memory representations compared byte for byte (ASan-watched)",
                 text="The structure decoded from the reference DER is the base; equivalent representations are made in memory by a descriptor-driven walker (SET OF "
@@ -118,7 +118,7 @@ CHECKS = {
                 text="One module is generated under subsets of {-fwide-types, -fcompound-names, -findirect-choice, -fno-include-deps, -fincludes-quoted, -fno-constraints} "
                      "and with -no-gen-OER / -no-gen-PER; every build decodes the reference DER, emits DER/UPER/OER/CXER/BXER and decodes the default build's outputs; "
                      "each column must equal the default build's (its own reading of its outputs is the yardstick for cross-decoding).",
-                note="quick: default + each single option + 2 random subsets for 2 modules; thorough: all 64 subsets for 2 modules, random subsets for 8 more; option sets that do not build are inconclusive (C10). The fixed OPT module includes untagged CHOICE inside untagged CHOICE."),
+                note="quick: default + each single option + 2 random subsets for 2 modules; thorough: all 64 subsets for 2 modules, random subsets for 8 more; option sets that do not build are inconclusive (C10). The fixed OPT module includes untagged CHOICE inside untagged CHOICE. The shipped X.509 / LDAP (thorough: UMTS RRC) example specifications with their shipped sample PDUs, produced by other implementations, run through the same judgement (vf/realpdu.py)."),
     "C18": dict(level="exploration", engine="vdriver", ref="DESIGN.md 4/C18",
                 technique="reference-model + safety monitor: generated CLASS/object-set modules; open-type frames judged against reference DER / X.691 open-type framing and the element names in CANONICAL-XER; mismatches, unknown identifiers and mutants under ASan+UBSan with the allocation ledger",
                 text="Modules with a CLASS { &id UNIQUE, &Type }, an object set of 1..8 rows (inline / named objects, extensible or not, INTEGER / INTEGER (0..255) / OBJECT IDENTIFIER "
@@ -132,7 +132,7 @@ CHECKS = {
                 text="TSan build of skeletons + generated code + vf/driver/tdriver.c; 2/4/8/16 threads behind a barrier each decode, encode (all syntaxes, shuffled), validate, "
                      "print, convert time types, decode the library's own output, compare and free their own structures; repeated with different seeds and thread counts; "
                      "evidence counts the distinct (operation, type kind) pairs observed overlapping in time.",
-                note="Schedules are sampled; asn_random_fill is not driven; quick: 1 module x 6 runs, thorough: 4 modules x 40 runs. Every other decode passes one static codec context shared by all threads; one round runs a module with an object set (generated type selectors)."),
+                note="Schedules are sampled; asn_random_fill is not driven; quick: 1 module x 6 runs, thorough: 4 modules x 40 runs. Every other decode passes one static codec context shared by all threads; one round runs a module with an object set (generated type selectors), two more the shipped X.509 and LDAP specifications on their shipped sample PDUs."),
 }
 
 PENDING_REASON = "check not implemented yet (bring-up in progress; see DESIGN.md section 9)"
